@@ -16,6 +16,11 @@ fn main() {
     writeln!(f, "fn registry() -> Vec<(&'static str, GenFn, ExecFn, TablesFn)> {{ vec![").unwrap();
     for id in &ids { writeln!(f, "  (\"{}\", {}::gen as GenFn, {}::exec as ExecFn, {}::tables as TablesFn),", id.to_uppercase(), id, id, id).unwrap(); }
     writeln!(f, "] }}").unwrap();
+    // path of the chain-gang dependency (so the harness can read crate-private tables from its sources)
+    let manifest = std::fs::read_to_string(std::path::Path::new(env!("CARGO_MANIFEST_DIR")).join("Cargo.toml")).unwrap();
+    let repo = manifest.lines().find(|l| l.starts_with("chain-gang")).and_then(|l| l.split("path = \"").nth(1)).and_then(|r| r.split('"').next()).unwrap_or("/repo").to_string();
+    println!("cargo:rustc-env=CG_REPO={}", repo);
+    println!("cargo:rerun-if-changed=Cargo.toml");
     println!("cargo:rerun-if-changed=src");
     println!("cargo:rerun-if-changed=build.rs");
 }
